@@ -27,7 +27,7 @@ class FileManager:
         if not zpage.exists():
             return Error(f"Page does NOT exist: {zpage}")
 
-        zlines = zpage.read_text().split("\n")
+        zlines = c.read_text_as_is(zpage).split("\n")
         in_note = False
         start_idx: Optional[int] = None
         for i, line in enumerate(zlines):
@@ -66,7 +66,7 @@ class FileManager:
         first_line_regex = re.compile(
             rf"^[-ox~<>] +(P[0-9] +)?([0-9]{{6}} +)?{re.escape(note.zid)}( |$)"
         )
-        for i, line in enumerate(zpage.read_text().split("\n")):
+        for i, line in enumerate(c.read_text_as_is(zpage).split("\n")):
             if first_line_regex.match(line):
                 start_idx = i
                 break
@@ -74,7 +74,7 @@ class FileManager:
             err_ctx = f"ZID={note.zid} FILE={note.file_path}"
             return Error(f"Unable to find note in file | {err_ctx}")
         end_idx = start_idx + len(note.body.split("\n"))
-        zlines = zpage.read_text().split("\n")
+        zlines = c.read_text_as_is(zpage).split("\n")
         new_zlines = zlines[:start_idx] + zlines[end_idx:]
         new_zcontents = "\n".join(new_zlines)
         zpage.write_text(new_zcontents)
